@@ -151,6 +151,9 @@ func atGenTable(r *vc.Rand, name, pkKind string, kinds []string, nv, nrows int, 
 		t.Def.PK = []int{add(mm.Column{Name: "id", T: mm.TInt, Bits: 64, AutoInc: true, ColType: "bigint(20)"}, "pk")}
 	case "varchar":
 		t.Def.PK = []int{add(mm.Column{Name: "code", T: mm.TChar, Len: 32, ColType: "varchar(32)"}, "pk")}
+	case "binary":
+		// byte-valued key (the usual shape of UUID keys)
+		t.Def.PK = []int{add(mm.Column{Name: "bk", T: mm.TBin, Len: 16, DataType: "varbinary", ColType: "varbinary(16)"}, "pk")}
 	}
 	var vcols []int
 	for i := 0; i < nv; i++ {
@@ -181,6 +184,8 @@ func atGenTable(r *vc.Rand, name, pkKind string, kinds []string, nv, nrows int, 
 					row[ci] = int64(i + 1)
 				case "code":
 					row[ci] = fmt.Sprintf("K%02d", i+1)
+				case "bk":
+					row[ci] = []byte(fmt.Sprintf("b%02dz", i+1))
 				case "k2", "kc":
 					row[ci] = []string{"a", "b", "x"}[i%3]
 				case "ka":
